@@ -190,6 +190,42 @@ def run_stage(name, cmd, out_path, timeout, mem_gb):
     return rc, to, time.time() - t0
 
 
+def resolve_cbmc_args(h, out, workdir):
+    """Per-harness CBMC options, with `--unwindset-fn f:B[,g:C..]` turned into CBMC's `--unwindset`: every loop
+    of a function whose (mangled) identifier contains the plain name `f` gets the bound B, and so does the
+    recursion of `f` itself. Loop identifiers are read from `cbmc --show-loops` on the prepared goto program,
+    so they follow /repo's current source."""
+    args = list(h.get("cbmc", []))
+    if "--unwindset-fn" not in args:
+        return args
+    i = args.index("--unwindset-fn")
+    spec = args[i + 1]
+    del args[i:i + 2]
+    want = [(x.split(":")[0], x.split(":")[1]) for x in spec.split(",") if ":" in x]
+    lp = os.path.join(workdir, h["name"] + ".loops.txt")
+    run_stage(h["name"] + "#loops", ["cbmc", "--show-loops", out], lp, 300, 8)
+    ids = re.findall(r"^Loop (\S+):", open(lp, errors="replace").read(), re.M)
+    items = []
+    for fn, b in want:
+        tag = f"{len(fn)}{fn}"          # v0 mangling: <len><name>
+        funcs = set()
+        for lid in ids:
+            f = lid.rsplit(".", 1)[0]
+            if tag in f:
+                items.append(f"{lid}:{b}")
+                funcs.add(f)
+        for f in sorted(funcs):
+            if f.endswith(tag) or re.search(re.escape(tag) + r"(B\w*_|Cs\w+_\w+)?$", f):
+                items.append(f"{f}:{b}")     # recursion bound of the function itself
+    try:
+        os.remove(lp)
+    except OSError:
+        pass
+    if items:
+        args += ["--unwindset", ",".join(items)]
+    return args
+
+
 def verify_one(h, art, workdir, cap_t, cap_mem):
     """goto-cc / goto-instrument / cbmc exactly as kani-driver 0.68 runs them."""
     name = h["name"]
@@ -216,7 +252,9 @@ def verify_one(h, art, workdir, cap_t, cap_mem):
           "--no-self-loops-to-assumptions", "--no-pointer-primitive-check", "--object-bits", "16"]
     if art["unwind"] is not None:
         cb += ["--unwind", str(art["unwind"])]
-    cb += h.get("cbmc", [])  # per-harness extra CBMC options (e.g. --max-field-sensitivity-array-size N)
+    extra = resolve_cbmc_args(h, out, workdir)  # per-harness extra CBMC options (e.g. --max-field-sensitivity-array-size N)
+    res["cbmc_extra"] = extra
+    cb += extra
     cb += ["--sat-solver", "cadical", "--slice-formula", out, "--verbosity", "9", "--json-ui"]
     jpath = os.path.join(workdir, name + ".cbmc.json")
     remaining = max(30, cap_t - (time.time() - t0))
@@ -417,7 +455,7 @@ def value_candidates(h, art, workdir, failed, cap_t, cap_mem, features):
             "--no-self-loops-to-assumptions", "--no-pointer-primitive-check", "--object-bits", "16"]
     if art["unwind"] is not None:
         base += ["--unwind", str(art["unwind"])]
-    base += h.get("cbmc", []) + ["--sat-solver", "cadical"]
+    base += art.get("cbmc_extra", h.get("cbmc", [])) + ["--sat-solver", "cadical"]
     jpath = os.path.join(workdir, name + ".trace.json")
 
     def aligned(tv):
@@ -439,7 +477,8 @@ def value_candidates(h, art, workdir, failed, cap_t, cap_mem, features):
             # building the trace needs noticeably more memory than deciding the formula: give it headroom
             run_stage(name + "#trace", cb, jpath, cap_t, max(cap_mem, 28))
             tv = _trace_values(jpath, pick["pid"])
-        if tv:
+        if tv is not None and (tv or source == "deciding-run trace"):
+            # (an empty list from the deciding run's trace = the harness has no symbolic input at all)
             vals = aligned(tv)
             if vals not in seen:
                 seen.append(vals)
@@ -669,6 +708,7 @@ def main():
         memsafe = any(f["cls"] in MEMSAFE_CLASSES or "dereference" in f["desc"] or "deallocated" in f["desc"]
                       or "same allocation" in f["desc"] for f in r["failed"])
         outs, tried = None, 0
+        arts[h["name"]]["cbmc_extra"] = r.get("cbmc_extra", h.get("cbmc", []))
         for source, vals in value_candidates(h, arts[h["name"]], workdir, r["failed"], caps["time"], caps["mem_gb"], features):
             tried += 1
             json.dump(dict(harness=h["name"], property=prop, features=features, values=vals, values_from=source,
